@@ -778,6 +778,34 @@ fn check_mem(e: &mut Exp, what: &str, held: usize, documented: usize, slack: usi
     }
 }
 
+/// Open known finding C11-tdigest-k2k3-weight-range (reported by a round-10 mutation sub-agent on the
+/// unmodified crate): K2 and K3 normalise with the number of inserts (`x(n) = delta / (4 ln(n/delta) + c)`),
+/// but the k-range the centroids have to cover is `2 x ln(total weight / smallest weight)`; with weights
+/// that grow geometrically that logarithm grows linearly with the stream, so about n/2 centroids survive
+/// (until the f64 exponent range is used up).  K0 and K1 hold ~6 centroids on the same stream (checked here
+/// too: a failure for them is NOT covered by the known finding).  Probed at fixed points.
+pub fn exp_c11_td_weight_range(e: &mut Exp) {
+    fn run<S: ScaleFunction + Clone + std::fmt::Debug>(sf: S, n: u64) -> usize {
+        let mut d = TDigest::new(sf, 16);
+        let mut w = 1.0f64;
+        for i in 0..n {
+            d.insert_weighted(i as f64, w);
+            w *= 2.0; // stays finite: 2^999 ~ 5e300
+        }
+        d.n_centroids()
+    }
+    let (delta, bl) = (20.0f64, 16.0f64);
+    for &n in &[400u64, 1000] {
+        for (name, nc) in [("K0", run(K0::new(delta), n)), ("K1", run(K1::new(delta), n)), ("K2", run(K2::new(delta), n)), ("K3", run(K3::new(delta), n))] {
+            e.evals += 1;
+            e.statmax(&format!("c11.td_weight_range.{}", name), nc as u64);
+            if nc as f64 > 2.0 * delta + 6.0 + bl {
+                e.fails.push(format!("tdigest weight-range floor ({}, delta=20, backlog=16, weights 2^i, n={}): {} centroids (O(delta + backlog) expected)", name, n, nc));
+            }
+        }
+    }
+}
+
 pub fn exp_c11(e: &mut Exp) {
     let lens: &[u64] = if e.scale > 1 { &[1_000, 10_000, 100_000, 1_000_000] } else { &[1_000, 10_000, 100_000] };
     // --- cuckoo: slots x fingerprint bits -----------------------------------------------------
